@@ -599,7 +599,125 @@ class Analysis(object):
                                         % ', '.join(sorted(lab))})
             self._loop_strides(fname, fn, info, out)
             self._use_after_free(fname, fn, info, out)
+            self._recv_count_uses(fname, fn, info, out)
         return out
+
+    # ---- K7: indexes / lengths derived from the receive count ---------------
+    def _affine_of_recv(self, info, reg, depth=0):
+        """reg == (result of a recv call) + constant ?  -> (call instruction, constant) or None"""
+        ins = info.defs.get(reg)
+        if ins is None or depth > 12:
+            return None
+        if ins.op == 'call' and callee_name(ins) in RECV:
+            return ins, 0
+        if ins.op in ('trunc', 'sext', 'zext', 'bitcast', 'freeze') and ins.args[0][1][0] == 'r':
+            return self._affine_of_recv(info, ins.args[0][1][1], depth + 1)
+        if ins.op in ('add', 'sub'):
+            (t1, a), (t2, b) = ins.args
+            w = self.mod.resolve(t1)[1] if self.mod.resolve(t1)[0] == 'i' else 64
+
+            def sval(c):
+                return c - (1 << w) if c >> (w - 1) else c
+            if a[0] == 'r' and b[0] == 'c':
+                r = self._affine_of_recv(info, a[1], depth + 1)
+                if r:
+                    return r[0], r[1] + (sval(b[1]) if ins.op == 'add' else -sval(b[1]))
+            if ins.op == 'add' and b[0] == 'r' and a[0] == 'c':
+                r = self._affine_of_recv(info, b[1], depth + 1)
+                if r:
+                    return r[0], r[1] + sval(a[1])
+        return None
+
+    def _recv_interval(self, fname, info, call, block):
+        """interval of the receive count at `block`: [-1, length argument], refined by every comparison of (count +
+        constant) with a constant whose surviving edge dominates the block"""
+        n = self.const_int(call.args[RECV[callee_name(call)][1]])
+        lo, hi = -1, (n if n is not None else (1 << 31) - 1)
+        fn = info.fn
+        for g in fn.order:
+            term = fn.blocks[g][-1] if fn.blocks[g] else None
+            if term is None or term.op != 'br' or len(term.x['targets']) != 2 or term.args[0][1][0] != 'r':
+                continue
+            c = info.defs.get(term.args[0][1][1])
+            if c is None or c.op != 'icmp':
+                continue
+            (t1, a), (t2, b) = c.args
+            pred = c.x['pred']
+            if a[0] == 'c' and b[0] == 'r':
+                a, b = b, a
+                pred = SWAP[pred]
+            if a[0] != 'r' or b[0] != 'c':
+                continue
+            aff = self._affine_of_recv(info, a[1])
+            if not aff or aff[0] is not call:
+                continue
+            w = self.mod.resolve(t1)[1] if self.mod.resolve(t1)[0] == 'i' else 64
+            k = b[1] - (1 << w) if b[1] >> (w - 1) else b[1]
+            k -= aff[1]                      # compare the count itself with k
+            tsucc, fsucc = term.x['targets']
+            for succ, truth in ((tsucc, True), (fsucc, False)):
+                other = fsucc if truth else tsucc
+                if succ == other or not info.dominates(succ, block) or len(info.pred.get(succ, [])) != 1:
+                    continue
+                p = pred if truth else {'slt': 'sge', 'sle': 'sgt', 'sgt': 'sle', 'sge': 'slt', 'ult': 'uge', 'ule': 'ugt',
+                                        'ugt': 'ule', 'uge': 'ult', 'eq': 'ne', 'ne': 'eq'}[pred]
+                if p in ('slt', 'ult'):
+                    hi = min(hi, k - 1)
+                    if p == 'ult':
+                        lo = max(lo, 0)
+                elif p in ('sle', 'ule'):
+                    hi = min(hi, k)
+                    if p == 'ule':
+                        lo = max(lo, 0)
+                elif p in ('sgt', 'ugt'):
+                    lo = max(lo, k + 1)
+                elif p in ('sge', 'uge'):
+                    lo = max(lo, k)
+                elif p == 'eq':
+                    lo, hi = max(lo, k), min(hi, k)
+        return lo, hi
+
+    def _recv_count_uses(self, fname, fn, info, out):
+        for b in fn.order:
+            for ins in fn.blocks[b]:
+                if ins.op == 'getelementptr':
+                    for tv in ins.args[1:]:
+                        if tv[1][0] != 'r':
+                            continue
+                        aff = self._affine_of_recv(info, tv[1][1])
+                        if not aff:
+                            continue
+                        lo, hi = self._recv_interval(fname, info, aff[0], b)
+                        lo += aff[1]
+                        hi += aff[1]
+                        for (obj, off) in self.origin_of(fname, ins.args[0]):
+                            size = self.obj_size.get(obj)
+                            if size is None or off is None:
+                                continue
+                            es = 1
+                            if lo + off < 0 or (hi + off) * es > size - 1:
+                                out.append({'kind': 'recv-count-index', 'fn': fname, 'loc': self.loc(ins), 'labels': [],
+                                            'text': 'index derived from the receive count ranges over [%d, %d] here, %s has octets 0..%d'
+                                            % (lo + off, hi + off, obj, size - 1)})
+                elif ins.op == 'call' and mem_intrinsic(callee_name(ins)):
+                    di, si, li = mem_intrinsic(callee_name(ins))
+                    ltv = ins.args[li]
+                    if ltv[1][0] != 'r':
+                        continue
+                    aff = self._affine_of_recv(info, ltv[1][1])
+                    if not aff:
+                        continue
+                    lo, hi = self._recv_interval(fname, info, aff[0], b)
+                    lo += aff[1]
+                    hi += aff[1]
+                    for (obj, off) in self.origin_of(fname, ins.args[di]):
+                        size = self.obj_size.get(obj)
+                        if size is None or off is None:
+                            continue
+                        if lo < 0 or off + hi > size:
+                            out.append({'kind': 'recv-count-length', 'fn': fname, 'loc': self.loc(ins), 'labels': [],
+                                        'text': 'copy length derived from the receive count ranges over [%d, %d] here, destination %s has %d octets from offset %d'
+                                        % (lo, hi, obj, size, off)})
 
     def _derived(self, info, root):
         """SSA values that are `root` plus constant address arithmetic / casts"""
